@@ -497,10 +497,16 @@ func (s *ReceiveStream) getControlFrame(now monotime.Time) (_ ackhandler.Frame, 
 	}
 
 	s.queuedMaxStreamData = false
+	offset := s.flowController.GetWindowUpdate(now)
+	if offset == 0 {
+		// No window update is needed (any more), e.g. because the final offset became known
+		// after the update was queued. Don't send a MAX_STREAM_DATA frame with a zero limit.
+		return ackhandler.Frame{}, false, false
+	}
 	return ackhandler.Frame{
 		Frame: &wire.MaxStreamDataFrame{
 			StreamID:          s.streamID,
-			MaximumStreamData: s.flowController.GetWindowUpdate(now),
+			MaximumStreamData: offset,
 		},
 	}, true, false
 }
